@@ -341,6 +341,12 @@ def law_allclose(ch):
     elif variant == "zero-blocks":
         y = a.copy()
         must(y.fill_missing_blocks, what="fill_missing_blocks")
+        # documented: every valid sector is stored afterwards
+        valid = {tuple(s_) for s_ in gen.spec_valid_sectors(
+            pair["a"]["symm"], pair["a"]["idxs"], pair["a"]["charge"])}
+        require(set(y.blocks) == valid, "fill_missing_blocks:sectors",
+                lambda: f"{len(y.blocks)} stored sectors, {len(valid)} valid")
+        require_valid(y, "fill_missing_blocks:invalid", "filled array")
     elif variant == "dropped-block":
         y = a.copy()
         secs = sorted(y.blocks)
